@@ -55,38 +55,44 @@ def run(ctx):
             opn = ops.elts[0].id
             pr = sched.asg_arg(c, "priority")
             pl = sched.asg_arg(c, "pipeline_id")
-            okp = pr is not None and pl is not None and norm.U(pr) == f"{opn}.pipeline.priority" and norm.U(pl) == f"{opn}.pipeline.pipeline_id"
+            okp = pr is not None and pl is not None and norm.U(norm.subst(pr, env)) == f"{opn}.pipeline.priority" and norm.U(norm.subst(pl, env)) == f"{opn}.pipeline.pipeline_id"
             ctx.ob(1, "K6", "priority and pipeline id are those of the operator's own pipeline", okp, fn_, c, construct="priority/pipeline_id flow",
                    detail=f"priority={norm.U(pr) if pr is not None else None}, pipeline_id={norm.U(pl) if pl is not None else None}")
-        # (2) CPU snapshot
-        fs = g.facts_at(c)
-        snap = None
-        for a in fs:
-            if a[0] == "cmp" and a[1] in ("<=", "<") and a[2] in ("1", "0") and pid is not None:
-                snap = a
-        lp = enclosing_for(c, fn_.node)
+        # (2) CPU snapshot: the entry of the chosen pool is decremented by one on the way to the construction, and that happens
+        #     only where the entry is known to be >= 1
+        stc = c
+        while not isinstance(stc, ast.stmt):
+            stc = parent(stc)
         snap_term = None
-        d = f"facts at the construction: {sorted(norm.show(x) for x in fs)}"
-        if lp is not None and isinstance(lp.iter, ast.Call) and norm.call_name(lp.iter) == "items" and isinstance(lp.target, ast.Tuple) and len(lp.target.elts) == 2:
-            D = norm.U(lp.iter.func.value)
-            k, v = (norm.U(x) for x in lp.target.elts)
-            if pid is not None and norm.U(pid) == k and (norm.entails(fs, ("cmp", "<=", "1", v)) or norm.entails(fs, ("cmp", "<", "0", v))):
-                snap_term = f"{D}[{k}]"
-        elif pid is not None:
-            for a in fs:
-                if a[0] == "cmp" and ((a[1] == "<=" and a[2] == "1") or (a[1] == "<" and a[2] == "0")) and a[3].endswith(f"[{norm.U(pid)}]"):
-                    snap_term = a[3]
+        decs = []
+        if pid is not None:
+            for n in own_nodes(fn_.node):
+                if isinstance(n, ast.AugAssign) and isinstance(n.op, ast.Sub) and isinstance(n.target, ast.Subscript) and norm.U(n.target.slice) == norm.U(pid) \
+                        and isinstance(n.value, ast.Constant) and n.value.value == 1 and not isinstance(n.value.value, bool):
+                    decs.append(n)
+        guarded = False
+        d = "no decrement by one of a per-pool entry indexed by the assignment's pool"
+        gd = [n for n in decs if g.dominates(n, stc) and any(n is x for x in _blk(stc))]
+        if len(gd) == 1:
+            T = norm.U(gd[0].target)
+            fs = g.facts_at(gd[0])
+            guarded = norm.entails(fs, ("cmp", "<=", "1", T)) or norm.entails(fs, ("cmp", "<", "0", T))
+            lp = enclosing_for(c, fn_.node)
+            if not guarded and lp is not None and isinstance(lp.iter, ast.Call) and norm.call_name(lp.iter) == "items" and isinstance(lp.target, ast.Tuple) and len(lp.target.elts) == 2:
+                D = norm.U(lp.iter.func.value)
+                k, v = (norm.U(x) for x in lp.target.elts)
+                # `for k, v in D.items()`: v is D[k] as long as D[k] has not been stored to in this iteration
+                guarded = T == f"{D}[{k}]" and norm.U(pid) == k and (norm.entails(fs, ("cmp", "<=", "1", v)) or norm.entails(fs, ("cmp", "<", "0", v)))
+            d = f"decrement `{stmt_text(gd[0])}`; facts there: {sorted(norm.show(x) for x in fs)}"
+            if guarded:
+                snap_term = T
         ctx.ob(2, "K8", "a container is started on a pool only while that pool's entry of the CPU snapshot is >= 1", snap_term is not None, fn_, c,
                construct="guard: avail >= 1", detail=d + f"; snapshot entry: {snap_term}")
         if snap_term is not None:
-            decs = [n for n in own_nodes(fn_.node) if isinstance(n, ast.AugAssign) and isinstance(n.op, ast.Sub) and norm.U(n.target) == snap_term
-                    and isinstance(n.value, ast.Constant) and n.value.value == 1]
-            stc = c
-            while not isinstance(stc, ast.stmt):
-                stc = parent(stc)
-            okd = len(decs) == 1 and g.dominates(decs[0], stc) and any(decs[0] is x for x in _blk(stc))
+            alld = [n for n in own_nodes(fn_.node) if isinstance(n, ast.AugAssign) and norm.U(n.target) == snap_term]
+            okd = len(alld) == 1
             ctx.ob(2, "K8", "the snapshot entry of that pool is decremented by exactly one for the CPU just handed out, on the same path", okd, fn_,
-                   decs[0] if decs else c, construct=None if decs else "snapshot decrement", detail=f"decrements of {snap_term}: {[stmt_text(x) for x in decs]}")
+                   gd[0], detail=f"updates of {snap_term}: {[stmt_text(x) for x in alld]}")
             # snapshot definition
             D0 = snap_term.split("[")[0]
             attr = D0.split(".", 1)[1] if "." in D0 else D0
@@ -225,24 +231,30 @@ def run(ctx):
         for c in tcs:
             ok = len(c.args) >= 2 and norm.is_name(c.args[1], opn)
             ctx.ob(4, "K6", "the operator offered for placement is the queue element being visited", ok, ma, c, detail=norm.U(c))
-        trunc = [n for n in qsets if any(a is loop for a in _anc(n))]
-        full = [n for n in qsets if n not in trunc]
+        def _in_body(n):
+            return any(any(x is n for x in ast.walk(b)) for b in loop.body)
+        trunc = [n for n in qsets if _in_body(n)]
+        full = [n for n in qsets if n not in trunc]      # after the loop, or in its else clause (both run exactly when the loop is exhausted)
+        hid = gm.node_of(loop).id
         okt = len(trunc) == 1 and norm.U(trunc[0].value) == f"{q}[{idx}:]"
         dt = f"{[stmt_text(n) for n in trunc]}"
         if okt:
-            # reached exactly when placement failed for the visited operator, and followed by return
+            # reached exactly when placement failed for the visited operator; the pass ends there (no further iteration, no emptying)
             fs = gm.facts_at(trunc[0])
             res_names = [pool_parent_assign_name(c) for c in tcs]
             failed = any(rn and norm.entails(fs, ("truth", rn, False)) for rn in res_names)
-            blk = _blk(trunc[0])
-            i = [k for k, s in enumerate(blk) if s is trunc[0]][0]
-            ret = any(isinstance(s, ast.Return) for s in blk[i + 1:])
-            okt = failed and ret
-            dt += f"; taken when placement failed: {failed}; followed by return: {ret}"
+            tid = gm.node_of(trunc[0]).id
+            again = gm.path_avoiding(tid, {hid} | {gm.node_of(n).id for n in full}, set())
+            okt = failed and again is None
+            dt += f"; taken when placement failed: {failed}; the pass ends there (no further iteration, queue not emptied afterwards): {again is None}"
         ctx.ob(4, "K4", "when capacity runs out the queue keeps exactly the unplaced suffix (from the operator that could not be placed)", okt, ma,
                trunc[0] if trunc else loop, construct="s.op_queue = s.op_queue[idx:]", detail=dt)
-        okf = len(full) == 1 and isinstance(full[0].value, ast.List) and not full[0].value.elts and not any(a is loop for a in _anc(full[0])) \
-            and full[0].lineno > loop.lineno
+        okf = len(full) == 1 and isinstance(full[0].value, ast.List) and not full[0].value.elts
+        if okf:
+            fid = gm.node_of(full[0]).id
+            # every exhaustion of the loop (the `done` edge of its header) leads to the emptying
+            miss = gm.path_avoiding(hid, {gm.exit.id}, {fid}, edge_ok=lambda a, b, lab: not (a == hid and lab != "done"))
+            okf = miss is None
         ctx.ob(4, "K4", "when every queued operator was handled the queue is emptied", okf, ma, full[0] if full else ma.node, construct="s.op_queue = []",
                detail=f"{[stmt_text(n) for n in full]}")
         # skipped (abandoned) operators are the only ones not offered
